@@ -8,6 +8,7 @@ import (
 
 	secp256k1 "gitlab.com/yawning/secp256k1-voi"
 	"gitlab.com/yawning/secp256k1-voi/secec"
+	"gitlab.com/yawning/secp256k1-voi/secec/bitcoin"
 )
 
 func init() {
@@ -105,6 +106,12 @@ func driveBaseMul(c *ctx) {
 				panic(err)
 			}
 			c.E("bm.Priv", "s", h32(s), "pub", hx(priv.PublicKey().Bytes()), "cmp", hx(priv.PublicKey().CompressedBytes()))
+			// ... and the key object still maps d to d*G after other objects were derived from it and its views were handed out
+			_ = bitcoin.NewSchnorrPrivateKeyFromECDSA(priv)
+			_ = bitcoin.NewSchnorrPublicKeyFromECDSA(priv.PublicKey())
+			pt := priv.PublicKey().Point()
+			pt.Negate(pt)
+			c.E("bm.Priv", "s", h32(s), "pub", hx(priv.PublicKey().Point().UncompressedBytes()), "cmp", hx(priv.PublicKey().Point().CompressedBytes()), "after_derive", true)
 		}
 	}
 }
